@@ -1,9 +1,37 @@
 #!/bin/bash
 # C37: controlled-scheduler build (sync -> ssync shim in the pool) + a separate free-running -race build of the same bodies.
+# Part (a) (server.go) needs small pool constants: MAX_CAPACITY / MAX_PENDING_TXN / MAX_LIMITATION are compile-time
+# constants of txnpool/common/txnpool_common.go, so the main build sees a generated copy of that file (the copy is made from
+# whatever the overlay already maps the file to, so killdemo mutants of it are kept).
 set -u
 V=/verif
 export GOFLAGS=-mod=mod GOPROXY=off GOSUMDB=off GOTOOLCHAIN=local
 cd $V/engine
+mkdir -p $V/.build/c37consts
+OVC=$V/.build/overlay_c37_consts.json
+if ! python3 - "$VERIF_OVERLAY" "$OVC" $V/.build/c37consts/txnpool_common.go <<'EOF'
+import json, re, sys
+ov, out, dst = sys.argv[1:4]
+o = json.load(open(ov))
+tgt = "/repo/txnpool/common/txnpool_common.go"
+src = o["Replace"].get(tgt, tgt)
+s = open(src).read()
+for name, val in (("MAX_CAPACITY", "2"), ("MAX_PENDING_TXN", "8"), ("MAX_LIMITATION", "16")):
+    s, n = re.subn(r"(?m)^(\s*%s\s*=\s*)[^/\n]*?(\s*(//.*)?)$" % name, r"\g<1>%s\2" % val, s)
+    if n != 1:
+        sys.stderr.write("c37/run.sh: constant %s not found exactly once in %s\n" % (name, src))
+        sys.exit(3)
+try:
+    same = open(dst).read() == s
+except OSError:
+    same = False
+if not same:
+    open(dst, "w").write(s)
+o["Replace"][tgt] = dst
+json.dump(o, open(out, "w"), indent=1)
+EOF
+then echo "HARNESS-ERROR property=C37 cannot generate the shrunk pool constants"; exit 2; fi
+export VERIF_OVERLAY=$OVC
 if ! go build -tags verif -overlay "$VERIF_OVERLAY" -o $V/.build/bin/c37 ./props/c37 2> $V/.build/build_c37.log; then
   echo "HARNESS-ERROR property=C37 build failed (see $V/.build/build_c37.log)"; tail -30 $V/.build/build_c37.log; exit 2
 fi
